@@ -208,6 +208,12 @@ def extra_templates():
               ("Point2 :: blob {\n    x: int,\n    y: int,\n}\nmk2 :: fn n: int -> int do\n    ret 0 - n\nend\n" if decoy else "") + \
               "start :: fn do\n    p: Point = Point { x: ?a }\n    print(p.x)\n    print(mk(?b).x)\n    print(K)\n    print(side(p))\n" + ("    q := Point2 { x: 1, y: 2 }\n    print(q.y)\n    print(mk2(?b))\n" if decoy else "") + "end\n"
         out.append({"name": "namespace_chain" + ("_with_decoy" if decoy else ""), "role": "multi-hop-namespace-path" + ("(decoy)" if decoy else ""), "text": main, "files": files, "ref_text": ref, "dom": {"a": (0, 3), "b": (0, 3)}, "expect": "accept"})
+    # (3) one namespace name bound to two different files must be rejected (otherwise one of the two modules is silently unreachable)
+    two = {"net/config.sy": "port :: 80\n", "db/config.sy": "port :: 5432\n", "a.sy": "v :: 1\n", "b.sy": "v :: 2\n"}
+    for nm, imports, use in (("same_last_component", "use net/config\nuse db/config\n", "config.port"), ("same_alias", "use a as m\nuse b as m\n", "m.v"),
+                             ("alias_equals_module", "use a\nuse b as a\n", "a.v"), ("from_same_name", "from a use v\nfrom b use v\n", "v")):
+        main = imports + "start :: fn do\n    print(%s + ?a)\nend\n" % use
+        out.append({"name": "namespace_name_bound_twice_" + nm, "role": "name-bound-to-two-modules(%s)" % nm, "text": main, "files": dict(two), "ref_text": "start :: fn do\n    print(?a)\nend\n", "dom": {"a": (0, 3)}, "expect": "reject"})
     return out
 
 
